@@ -41,7 +41,7 @@ func c10ParseLists(a hx.Args, i, g int) ([][]move.Move, int, bool) {
 		}
 		ms := make([]move.Move, n)
 		for j := 0; j < n; j++ {
-			ms[j] = move.Move(a.U64(i + j))
+			ms[j] = hx.U2M(a.U64(i + j))
 		}
 		i += n
 		games = append(games, ms)
@@ -188,7 +188,7 @@ func runC10Reuse(a hx.Args) string {
 		}
 		ms := make([]move.Move, end-i)
 		for j := range ms {
-			ms[j] = move.Move(a.U64(i + j))
+			ms[j] = hx.U2M(a.U64(i + j))
 		}
 		i = end
 		strs := c10Strs(ms)
@@ -301,7 +301,7 @@ func genC10Two(rng *hx.Rng, n int, tier string, emit func(hx.Input)) {
 		for k, ms := range games {
 			in.Int(len(ms))
 			for _, m := range ms {
-				in.U(uint64(m))
+				in.U(hx.M2U(m))
 			}
 			sb.WriteString(fmt.Sprintf(" | game %d:", k))
 			for _, m := range ms {
@@ -541,7 +541,7 @@ func genC10Reuse(rng *hx.Rng, n int, tier string, emit func(hx.Input)) {
 				sb.WriteString(kindText[c.kind])
 			}
 			for _, m := range c.ms {
-				in.U(uint64(m))
+				in.U(hx.M2U(m))
 				sb.WriteString(" " + m.String())
 			}
 			if i > 0 && c.how != "" {
